@@ -17,12 +17,15 @@ INITIAL = {
 }
 INITIAL.update(json.load(open(os.path.join(ROOT, 'seeded', 'initial.json')))
                if os.path.exists(os.path.join(ROOT, 'seeded', 'initial.json')) else {})
-WORD = {'C': 'caught, concrete input', 'N': 'caught, no-failing-input-found', 'M': 'MISSED', '?': '?'}
+WORD = {'C': 'caught, concrete input', 'N': 'caught, no-failing-input-found', 'M': 'MISSED', '?': '?',
+        'X': 'no longer breaks the property on the repaired tree (its demo passes); caught on the pre-repair tree'}
 
 
 def final(meta):
     c = meta.get('confirmed') or {}
     line = c.get('check_line', '')
+    if c.get('demo_exit_with_patch') == 0 and c.get('demo_exit_on_pristine_tree') == 0:
+        return 'X'      # a later repair of /repo neutralised the change
     if c.get('check_exit') == 1 and 'VIOLATION' in line:
         return 'N' if 'no-failing-input-found' in line else 'C'
     if c.get('check_exit') == 0:
@@ -64,14 +67,14 @@ n = len(rows)
 out.append("")
 out.append(f"{n} changes; first outcome: "
            + ', '.join(f"{sum(1 for r in rows if r[6] == k)} {WORD[k]}" for k in 'CNM')
-           + "; now: " + ', '.join(f"{sum(1 for r in rows if r[7] == k)} {WORD[k]}" for k in 'CNM?') + ".")
+           + "; now: " + ', '.join(f"{sum(1 for r in rows if r[7] == k)} {WORD[k]}" for k in 'CNMX?') + ".")
 open(os.path.join(ROOT, 'seeded', 'README.md'), 'w').write('\n'.join(out) + '\n')
 print('\n'.join(out[-(n + 4):]))
 
 # ---- compact matrix for DESIGN.md (between the SEEDTABLE markers) ----
 ids = sorted({r[0].split('-')[0] for r in rows})
 byname = {r[0]: r for r in rows}
-SH = {'C': 'C', 'N': 'n', 'M': 'MISS', '?': '?'}
+SH = {'C': 'C', 'N': 'n', 'M': 'MISS', '?': '?', 'X': 'repaired'}
 m = ["| id | round 1 | round 2 | round 3 | round 4 | round 5 | round 6 | round 7 |", "|---|---|---|---|---|---|---|---|"]
 for i in ids:
     cells = []
